@@ -57,9 +57,26 @@ TYPES = ("grid plate", "fuel", "plenum")
 # stationary blocks at the bottom (grid plate), at the top (plenum), in the middle (fuel), at bottom and top
 STAT = {"none": [], "gridplate": ["GRID_PLATE"], "two": ["GRID_PLATE", "PLENUM"], "plenum": ["PLENUM"],
         "fuel": ["FUEL"]}
+# taller assemblies for settings with SEVERAL stationary blocks at arbitrary axial levels: one block type (= one flag)
+# per level ("4", "5"), or the same type at two levels ("ctrl5": a control assembly, ducts at levels 1 and 4, so that
+# stationaryBlockFlags = [GRID_PLATE, DUCT] keeps levels 0, 1 and 4 in place)
+KINDS = {"3": TYPES, "4": ("grid plate", "shield", "fuel", "plenum"),
+         "5": ("grid plate", "shield", "fuel", "plenum", "duct"),
+         "ctrl5": ("grid plate", "duct", "control", "plenum", "duct")}
 NUCS = ("U235", "FE")
 QUEUE, POOL, GONE = "queue", "pool", "gone"
-ZMAX = 3 * 400.0   # cm: tallest possible assembly (3 blocks of at most 400 cm), the scale of elevation comparisons
+HMAX = 400.0       # cm: tallest block; (number of blocks) x HMAX is the scale of elevation comparisons
+
+
+def flags_of_levels(kind, levels):
+    """The stationaryBlockFlags setting that designates exactly the blocks at the given axial levels of an assembly
+    of KINDS[kind] (the flag of a block is its type name)."""
+    names = []
+    for k in levels:
+        n = KINDS[kind][k].upper().replace(" ", "_")
+        if n not in names:
+            names.append(n)
+    return tuple(names)
 
 
 class Op:
@@ -70,10 +87,13 @@ class World:
     """The real objects plus a reference model of where every assembly and block ought to be."""
 
     def __init__(self, ctx, track, stat, symmetry="full", nfresh=1, cells=CELLS, types=None, sharedStatHeight=False,
-                 nstored=0):
+                 nstored=0, kind="3"):
+        """stat: a key of STAT or a sequence of flag names; kind: key of KINDS (block types of every assembly, unless
+        `types` lists them per assembly)."""
         self.ctx = ctx
         self.track = track
-        cs = Settings().modified(newSettings={CONF_TRACK_ASSEMS: track, CONF_STATIONARY_BLOCK_FLAGS: STAT[stat]})
+        statFlags = STAT[stat] if isinstance(stat, str) else list(stat)
+        cs = Settings().modified(newSettings={CONF_TRACK_ASSEMS: track, CONF_STATIONARY_BLOCK_FLAGS: statFlags})
         self.r, self.core, self.sfp = U.mk_reactor(symmetry, sfp=True)
         self.core.setOptionsFromCs(cs)
         self.core.stationaryBlockFlagsList = [Flags.fromString(s) for s in cs[CONF_STATIONARY_BLOCK_FLAGS]]
@@ -85,7 +105,7 @@ class World:
         ntot = len(cells) + nfresh + nstored
         stored = list(range(len(cells) + nfresh, ntot))
         for ai in range(ntot):
-            ty = TYPES if types is None else types[ai]
+            ty = KINDS[kind] if types is None else types[ai]
             hs = [ctx.real("h_%d_%d" % (ai, k), 1.0, 400.0) for k in range(len(ty))]
             if sharedStatHeight and ai:
                 # stationary blocks are meant to sit at equal elevations (fuelHandlers only warns otherwise): one
@@ -110,6 +130,7 @@ class World:
         self.blocks = {ai: list(a) for ai, a in enumerate(self.asms)}
         self.statIdx = [k for k, b in enumerate(self.asms[0]) if any(b.hasFlags(f) for f in flags)]
         self.types0 = {ai: [b.getType() for b in a] for ai, a in enumerate(self.asms)}
+        self.zmax = HMAX * max(len(a) for a in self.asms)
         self.allBlocks = [b for a in self.asms for b in a]
         self.block0 = {id(b): dict(h=b.getHeight(),
                                    N={(ci, n): c.getNumberDensity(n) for ci, c in enumerate(b) for n in NUCS},
@@ -317,7 +338,7 @@ class World:
             zs, stack = 0.0, []
             for b in A[ai]:
                 hb = self.block0[id(b)]["h"]
-                stack.append(AND(CLOSE(b.p.zbottom, zs, scale=ZMAX), CLOSE(b.p.ztop, zs + hb, scale=ZMAX)))
+                stack.append(AND(CLOSE(b.p.zbottom, zs, scale=self.zmax), CLOSE(b.p.ztop, zs + hb, scale=self.zmax)))
                 zs = zs + hb
             ctx.check("%s: elevations of assembly %d follow its block order without gap or overlap" % (what, ai),
                       IMPLIES(self.statAligned, AND(*stack + [True])))
@@ -353,7 +374,10 @@ class World:
 
 BOUNDS = ("full-core mini reactor, 4 occupied cells (centre, ring 2 x2, ring 3) + 1 fresh assembly + spent fuel pool, "
           "(instances with nstored=1: + 1 assembly stored in the pool from the start), "
-          "3 blocks (grid plate / fuel / plenum) per assembly; symbolic: 15 (18) block heights [1,400], 60 (72) number "
+          "3 blocks (grid plate / fuel / plenum) per assembly (instances with kind=4 / 5 / ctrl5: 4 or 5 blocks of "
+          "distinct types, or grid plate / duct / control / plenum / duct, with the stationary flags chosen so that a "
+          "given subset of two or more axial levels stays in place: quick 4 subsets, thorough every subset); "
+          "symbolic: 15 (18) block heights [1,400], 60 (72) number "
           "densities [0,10], the action of each of K steps (forked over all legal ones: swap, cascade, dischargeSwap "
           "of a fresh or a stored assembly, removeAssembly with discharge=True and discharge=False, add); enumerated: "
           "trackAssems, stationaryBlockFlags in {[], [GRID_PLATE], [GRID_PLATE, PLENUM], [PLENUM] (top block), "
@@ -374,15 +398,30 @@ BOUNDS = ("full-core mini reactor, 4 occupied cells (centre, ring 2 x2, ring 3) 
                              [dict(track=False, stat="plenum", shared=True, level="reduced", nstored=1, fresh=False),
                               dict(track=True, stat="two", shared=True, level="reduced", nstored=1, fresh=False),
                               dict(track=True, stat="fuel", shared=True, level="reduced", nstored=1, fresh=False),
-                              dict(track=False, stat="none", shared=True, level="reduced", nstored=1)],
+                              dict(track=False, stat="none", shared=True, level="reduced", nstored=1)] +
+                             # several stationary blocks at arbitrary axial levels of taller assemblies (levels given
+                             # per instance; the flag setting is derived from the block types at those levels)
+                             [dict(track=t, kind=k, stat=flags_of_levels(k, lv), shared=True, level="reduced",
+                                   nstored=1, fresh=False)
+                              for t, k, lv in ((True, "ctrl5", (0, 1, 4)), (False, "5", (1, 3)),
+                                               (False, "5", (0, 2, 3)), (True, "4", (1, 2)))],
                     "thorough": [dict(track=t, stat=s, shared=False) for t in (True, False)
                                  for s in ("none", "gridplate", "two")] +
+                                # every subset of two or more axial levels of 4- and 5-block assemblies
+                                # (tracking on / off alternating)
+                                [dict(track=sum(lv) % 2 == 0, kind=k, stat=flags_of_levels(k, lv), shared=True,
+                                      level="reduced", nstored=1, fresh=False)
+                                 for k in ("4", "5") for n in range(2, len(KINDS[k]) + 1)
+                                 for lv in itertools.combinations(range(len(KINDS[k])), n)] +
+                                [dict(track=t, kind="ctrl5", stat=st, shared=sh, level="wide", nstored=1)
+                                 for t in (True, False) for st, sh in ((("GRID_PLATE", "DUCT"), True),
+                                                                       (("DUCT",), True), (("DUCT", "PLENUM"), False))] +
                                 [dict(track=t, stat=s, shared=sh, level="wide", nstored=1) for t in (True, False)
                                  for s, sh in (("none", False), ("plenum", True), ("fuel", True), ("two", True))] +
                                 [dict(track=t, stat=s, shared=False, level="reduced", nstored=1) for t in (True, False)
                                  for s in ("plenum", "fuel")]})
-def every_single_operation_keeps_the_books(ctx, track, stat, shared, level="full", nstored=0, fresh=True):
-    w = World(ctx, track, stat, sharedStatHeight=shared, nstored=nstored)
+def every_single_operation_keeps_the_books(ctx, track, stat, shared, level="full", nstored=0, fresh=True, kind="3"):
+    w = World(ctx, track, stat, sharedStatHeight=shared, nstored=nstored, kind=kind)
     acts = [a for a in w.actions(level) if fresh or not (a[0] == "discharge" and w.where[a[1]] == QUEUE)]
     act = ctx.choice("act0", acts)
     w.apply(act)
